@@ -637,7 +637,8 @@ impl Relations {
             let child_count = self.0.children_with_tokens().count();
             (
                 child_count,
-                if self.entries().next().is_none() {
+                // nothing to separate from: no entry and no substitution variable yet
+                if self.0.children().next().is_none() {
                     vec![entry.0.green().into()]
                 } else {
                     vec![
@@ -1065,7 +1066,7 @@ impl From<Vec<Relation>> for Entry {
         for (i, relation) in relations.into_iter().enumerate() {
             if i > 0 {
                 builder.token(WHITESPACE.into(), " ");
-                builder.token(COMMA.into(), "|");
+                builder.token(PIPE.into(), "|");
                 builder.token(WHITESPACE.into(), " ");
             }
             inject(&mut builder, relation.0);
